@@ -3,7 +3,7 @@
    Only statements, closed by [exact]; proofs live in HllUnionResult.v. *)
 From Coq Require Import ZArith NArith List Bool Lia.
 From DS Require Import Word RunnerLib HllDefs HllProofs HllSketchProofs.
-From DS Require Import HllUnionDefs HllUnionBase HllUnionCoupon HllUnionProofs HllUnionCorollaries HllUnionResult.
+From DS Require Import HllUnionDefs HllUnionBase HllUnionCoupon HllUnionProofs HllUnionCorollaries HllUnionResult HllUnionProtocol.
 Import ListNotations.
 Local Open Scope N_scope.
 
@@ -27,6 +27,38 @@ Theorem C04_get_result_any_type : forall lgmax ops ty, 4 <= lgmax -> lgmax <= 21
     src_ok (offered (since_reset ops)) r.
 Proof. exact union_result_any. Qed.
 
+(* ---- the same, at the level of the extracted line protocol (HllUnionDefs.step is what runs against the C++) ----
+   [st_adm s]: every sketch register is an admissible input for its ghost log, every union register satisfies the gadget
+   invariant for its ghost (coupons offered since the last reset, lg* ).  It holds initially and every union operation
+   keeps it; the query operations answer exactly what the specification values printed beside them say. *)
+Theorem C04_protocol_update : forall s u r rv e, st_adm s -> st_adm (fst (step s [11; u; r; rv]%Z e)).
+Proof. exact step_update. Qed.
+
+Theorem C04_protocol_raw_coupons : forall s u cs e, st_adm s -> Forall cok (map (fun z => w32 (zN z)) cs) ->
+  st_adm (fst (step s (12 :: u :: cs)%Z e)).
+Proof. exact step_raw_coupons. Qed.
+
+Theorem C04_protocol_estimate_reset : forall s u w e, st_adm s ->
+  st_adm (fst (step s [15; u; w]%Z e)) /\ st_adm (fst (step s [16; u]%Z e)) /\ st_adm (fst (step s [10; u; w]%Z e)).
+Proof. intros s u w e H. split; [now apply step_estimate|split; [now apply step_reset|now apply step_new_union]]. Qed.
+
+Theorem C04_protocol_get_result : forall s u tyz ty e x, st_adm s -> reg_get (uns s) u = Some x -> tgt_of_Z tyz = Some ty ->
+  exists r, step s [14; u; tyz]%Z e = (s, (observe r, spec_line (n_log x) (n_minlg x))) /\
+            sk_lgk r = n_minlg x /\ sk_ty r = ty /\ sk_regs r = Some (spec_regs_fold (n_minlg x) (n_log x)) /\
+            (sk_is_empty r = true <-> n_log x = []).
+Proof. exact step_get_result. Qed.
+
+Theorem C04_protocol_accessors : forall s u e x, st_adm s -> reg_get (uns s) u = Some x ->
+  exists mode, step s [17; u]%Z e =
+    (s, ([Nz (n_minlg x); bz (match n_log x with [] => true | _ => false end); mode; 2%Z], [Nz (n_minlg x); Nz (lenN (n_log x))])).
+Proof. exact step_accessors. Qed.
+
+Theorem C04_protocol_result_register : forall s u r tyz e, st_adm s -> st_adm (fst (step s [18; u; r; tyz]%Z e)).
+Proof. exact step_result_register. Qed.
+
+Theorem C04_protocol_new_sketch : forall s r lgk tyz full e, st_adm s -> st_adm (fst (step s [1; r; lgk; tyz; full]%Z e)).
+Proof. exact step_new_sketch. Qed.
+
 (* non-vacuity: an HLL_4 sketch of lg_k 7 built from 9 coupons is in HLL mode, admissible, and a union of lg_max_k 5 fed
    this sketch returns an HLL_6 result of lg_k 5 whose registers are the folded maxima *)
 Example C04_result_nonvacuous :
@@ -44,3 +76,10 @@ Qed.
 Print Assumptions C04_sketch_invariant_admissible.
 Print Assumptions C04_all_built_inputs_admissible.
 Print Assumptions C04_get_result_any_type.
+Print Assumptions C04_protocol_update.
+Print Assumptions C04_protocol_raw_coupons.
+Print Assumptions C04_protocol_estimate_reset.
+Print Assumptions C04_protocol_get_result.
+Print Assumptions C04_protocol_accessors.
+Print Assumptions C04_protocol_result_register.
+Print Assumptions C04_protocol_new_sketch.
